@@ -42,7 +42,26 @@ func VerifC05_MemtableAdapter() {
 		}
 	}
 	a := NewIteratorAdapter(m.NewIterator())
-	switch vsym.IntRange("mode", 0, 2) {
+	switch vsym.IntRange("mode", 0, 3) {
+	case 3:
+		// the iterator has been used before: it stands wherever 0..3 steps from the first entry left it (possibly on
+		// an older version of a key, or past the end) when Seek(t) is called; the result is that of a fresh Seek
+		a.SeekToFirst()
+		steps := vsym.IntRange("steps", 0, 3)
+		for j := 0; j < steps && a.Valid(); j++ {
+			a.Next()
+		}
+		t := vsym.Bytes("t", 1)
+		ok := a.Seek(t)
+		if newest[0] != 0 && !vsym.LessBytes(K[0], t) {
+			vsym.Assert(ok, "Seek on a used iterator reports nothing although a key >= t exists")
+			expect(a, 0, "Seek on a used iterator")
+		} else if newest[1] != 0 && !vsym.LessBytes(K[1], t) {
+			vsym.Assert(ok, "Seek on a used iterator reports nothing although a key >= t exists")
+			expect(a, 1, "Seek on a used iterator")
+		} else {
+			vsym.Assert(!ok && !a.Valid(), "Seek past every key must be invalid (used iterator)")
+		}
 	case 0:
 		a.SeekToLast()
 		if newest[1] != 0 {
